@@ -498,7 +498,9 @@ impl World {
     }
 }
 
-/// fresh World, every request executed in turn (used by `--replay`)
+/// fresh World, every request executed in turn, no oracles (`run_replay` and the shrinker go through `Checker::step`,
+/// which answers exactly like this)
+#[allow(dead_code)]
 pub fn replay(reqs: &[String]) -> Vec<String> {
     let mut w = World::new();
     reqs.iter().map(|r| w.exec(r)).collect()
@@ -1617,6 +1619,8 @@ struct HistOut {
     stats: Vec<(String, u64)>,
     inflight: Option<(String, Instant)>,
     hist: Vec<(String, String)>,
+    /// which rare triggers this history may generate (diagnostics)
+    flags: String,
     done: bool,
 }
 type Shared = Arc<Mutex<HistOut>>;
@@ -2094,9 +2098,11 @@ impl Gen {
     fn elements_of(&mut self, els: usize, count: usize, pending_refs: &mut Vec<usize>) {
         use ElementName::{ApplicationSwComponentType, EcuInstance, ISignal, SenderReceiverInterface, SwBaseType, System};
         const MIX: [ElementName; 6] = [System, EcuInstance, SwBaseType, ISignal, SenderReceiverInterface, ApplicationSwComponentType];
-        for _ in 0..count {
-            let n = MIX[self.rng.below(MIX.len())];
-            let nm = self.uname();
+        let mut free: Vec<&str> = UNIVERSE.to_vec();
+        for i in 0..count {
+            // SYSTEM, ECU-INSTANCE and I-SIGNAL first (so that FIBEX-ELEMENT-REFs have fitting targets), then a random mix
+            let n = if i < 3 && count >= 3 { [System, EcuInstance, ISignal][i] } else { MIX[self.rng.below(MIX.len())] };
+            let nm = if free.is_empty() || self.rng.chance(1, 8) { self.uname() } else { free.remove(self.rng.below(free.len())) };
             if let Some(x) = self.named(els, n, nm) {
                 self.element_extras(x, n, pending_refs);
             }
@@ -2141,8 +2147,9 @@ impl Gen {
         for r in pending_refs {
             let e = self.el(r);
             if self.rng.chance(1, 2) {
-                // setref to an identifiable element (DEST fits for ECU-INSTANCE / I-SIGNAL / SYSTEM under FIBEX-ELEMENT-REF, not for every kind)
-                if let Some(t) = self.pick_where(|x| x.is_identifiable() && x.element_name() != ArPackage) {
+                // setref to an identifiable element (mostly one whose kind fits the DEST of this reference)
+                let fit = if self.rng.chance(4, 5) { self.fitting_target(r) } else { None };
+                if let Some(t) = fit.or_else(|| self.pick_where(|x| x.is_identifiable() && x.element_name() != ArPackage)) {
                     self.m(format!("setref e{r} e{t}"));
                     continue;
                 }
@@ -2293,7 +2300,18 @@ impl Gen {
             self.stat("gen.rename_avoided_dangling_prefix".to_string());
             return;
         }
-        let name = if self.rng.chance(9, 10) { self.uname() } else { BAD_NAMES[self.rng.below(BAD_NAMES.len())] };
+        let mut name = if self.rng.chance(9, 10) { self.uname() } else { BAD_NAMES[self.rng.below(BAD_NAMES.len())] };
+        if self.rng.chance(3, 4) {
+            // prefer a name that is still free next to the element
+            let xe = self.el(x);
+            let prefix = xe.parent().ok().flatten().map(|p| Self::prefix_of(&p)).unwrap_or_default();
+            for _ in 0..4 {
+                if xe.model().ok().and_then(|m| m.get_element_by_path(&format!("{prefix}/{name}"))).is_none() {
+                    break;
+                }
+                name = self.uname();
+            }
+        }
         self.m(format!("rename e{x} {}", hx(name)));
     }
 
@@ -2341,14 +2359,28 @@ impl Gen {
         self.m(format!("rmtext e{x} {pos}"));
     }
 
-    fn op_setref(&mut self) {
-        let x = if self.rng.chance(17, 20) { self.pick_where(|e| e.is_reference()).unwrap_or(0) } else { self.pick_handle() };
+    /// an identifiable element that `x` (a reference element) can point to with a valid DEST
+    fn fitting_target(&mut self, x: usize) -> Option<usize> {
         let xe = self.el(x);
         let dests: Vec<EnumItem> = match xe.element_type().find_attribute_spec(AttributeName::Dest).map(|s| s.spec) {
             Some(CharacterDataSpec::Enum { items }) => items.iter().map(|i| i.0).collect(),
             _ => vec![],
         };
-        let fitting = if self.rng.chance(3, 4) { self.pick_where(|e| e.is_identifiable() && (e.element_name().to_str().parse::<EnumItem>().is_ok_and(|d| dests.contains(&d)) || xe.element_type().reference_dest_value(&e.element_type()).is_some())) } else { None };
+        let saved = self.scope.take();
+        let r = self.pick_where(|e| {
+            e.is_identifiable()
+                && match e.element_name().to_str().parse::<EnumItem>() {
+                    Ok(d) => dests.contains(&d),
+                    Err(_) => xe.element_type().reference_dest_value(&e.element_type()).is_some_and(|d| dests.contains(&d)),
+                }
+        });
+        self.scope = saved;
+        r
+    }
+
+    fn op_setref(&mut self) {
+        let x = if self.rng.chance(17, 20) { self.pick_where(|e| e.is_reference()).unwrap_or(0) } else { self.pick_handle() };
+        let fitting = if self.rng.chance(3, 4) { self.fitting_target(x) } else { None };
         let t = match fitting {
             Some(t) => t,
             None => if self.rng.chance(17, 20) { self.pick_where(|e| e.is_identifiable()).unwrap_or(0) } else { self.pick_handle() },
@@ -2535,13 +2567,18 @@ impl Gen {
     }
     fn op_fileset(&mut self, add: bool) {
         let x = if self.rng.chance(17, 20) {
-            self.pick_where(|e| e.parent().ok().flatten().is_some_and(|p| p.element_type().splittable() != 0)).unwrap_or(0)
+            // a SHORT-NAME restricted to some files only is generated in flagged histories only (see the report)
+            let sn = self.allow_split_move;
+            self.pick_where(|e| (sn || e.element_name() != ElementName::ShortName) && e.parent().ok().flatten().is_some_and(|p| p.element_type().splittable() != 0)).unwrap_or(0)
         } else {
             self.pick_handle()
         };
         let mf = self.model_files(0);
         let all = self.ck.w.files.len();
         let f = if !mf.is_empty() && (!self.allow_stale_file || self.rng.chance(4, 5)) { mf[self.rng.below(mf.len())] } else { self.rng.below(all.max(1)) };
+        if !self.allow_split_move && self.el(x).element_name() == ElementName::ShortName {
+            return;
+        }
         if !add && !self.allow_last_file {
             // removing the root from its last file empties the model; only in flagged histories
             let e = self.el(x);
@@ -2837,7 +2874,8 @@ fn spawn_history(seed: u64, kind: Kind, thorough: bool, prop: Option<String>) ->
     std::thread::spawn(move || {
         let mut rng = Rng::new(seed);
         let mut flag = |pct: u64| rng.chance(pct, 1000);
-        let (a, b, c, d, e, f, f2, f3, f4) = (flag(15), flag(15), flag(15), flag(7), flag(15), flag(12), flag(12), flag(12), flag(12));
+        let (a, b, c, d, e, f, f2, f3, f4) = (flag(9), flag(15), flag(15), flag(7), flag(15), flag(12), flag(12), flag(12), flag(12));
+        sh2.lock().unwrap().flags = [(a, "collision"), (b, "ancestor-move"), (c, "mixed-cdata"), (d, "remove-self"), (e, "dangling-rename"), (f, "last-file"), (f2, "stale-file"), (f3, "root-attr"), (f4, "split-move")].iter().filter(|x| x.0).map(|x| x.1).collect::<Vec<_>>().join("+");
         let mut g = Gen {
             rng,
             ck: Checker::new(prop, kind),
@@ -2917,9 +2955,9 @@ pub fn run(out: &str, seed: u64, thorough: bool, side: &str, prop: Option<&str>,
         }
         let (i, sh, started) = window.pop_front().unwrap();
         wait_for(&sh, started, total);
-        let (lines, fails, stats) = {
+        let (lines, fails, stats, flags) = {
             let mut g = sh.lock().unwrap();
-            (std::mem::take(&mut g.lines), std::mem::take(&mut g.fails), std::mem::take(&mut g.stats))
+            (std::mem::take(&mut g.lines), std::mem::take(&mut g.fails), std::mem::take(&mut g.stats), g.flags.clone())
         };
         sink_lines(&mut k, &lines);
         for (key, v) in stats {
@@ -2927,7 +2965,7 @@ pub fn run(out: &str, seed: u64, thorough: bool, side: &str, prop: Option<&str>,
         }
         k.stat("histories");
         for (f, h) in &fails {
-            rep.report(&mut k, f, h, plans[i].1, &format!("history #{i} seed={}", plans[i].0));
+            rep.report(&mut k, f, h, plans[i].1, &format!("history #{i} seed={} rare-triggers={}", plans[i].0, if flags.is_empty() { "none" } else { &flags }));
         }
     }
     let ms = t0.elapsed().as_millis();
